@@ -136,7 +136,9 @@ Definition v_res (r : res str) : val :=
 
 (* ops: 0 run an operation sequence; 1 uri encoder; 2 uri oracle; 3 content-disposition
    oracle; 4 cookie attribute oracle; 5 expired oracle; 6 emission oracle;
-   7 transform (one property value); 8 the case-insensitive map spec read at some names *)
+   7 transform (one property value); 8 the case-insensitive map spec read at some names;
+   9 taken_as_escaped (the documented exception region of the check-escaped encoders);
+   10 cookie emission-order oracle *)
 Definition run (v : val) : val :=
   match v with
   | L [I 0; f; sd; ops] =>
@@ -154,6 +156,9 @@ Definition run (v : val) : val :=
   | L [I 8; f; ops; names] =>
     let m := spec_run (dbool f) (dlist d_op ops) in
     vlist (fun n => vopt vstr (m (lower (dstr n)))) (match names with L l => l | _ => [] end)
+  | L [I 10; k; before; name; after] =>
+    vbool (cookie_order_ok (dN k) (dlist dstr before) (dstr name) (dlist dstr after))
+  | L [I 9; isv; chk; s] => vbool (taken_as_escaped (dbool isv) (dbool chk) (dstr s))
   | _ => L [I (-1)]
   end.
 
